@@ -343,6 +343,35 @@ Proof.
   - intros [= <-] [].
 Qed.
 
+Lemma key_eqb b n x : n = s_refs_remotes ++ x ->
+  list_eqb b (skipn (length s_refs_remotes) n) = list_eqb (s_refs_remotes ++ b) n.
+Proof.
+  intros ->. rewrite skipn_remotes. destruct (list_eqb b x) eqn:E.
+  - apply list_eqb_eq in E. subst. symmetry. apply list_eqb_refl.
+  - destruct (list_eqb (s_refs_remotes ++ b) (s_refs_remotes ++ x)) eqn:E'; [|reflexivity].
+    apply list_eqb_eq in E'. apply app_inv_head in E'. subst. now rewrite list_eqb_refl in E.
+Qed.
+
+Lemma last_val_filter d b (L : list (list Z)) :
+  mem_str (s_refs_remotes ++ b) L = false ->
+  forall pk : list (list Z * list Z),
+  (forall e, In e pk -> exists x, fst e = s_refs_remotes ++ x) ->
+  forall dflt,
+  last_val b (map (fun x : list Z * list Z =>
+                     (skipn (length s_refs_remotes) (fst (fst x, Some (snd x))), sha_of d (fst x, Some (snd x))))
+                  (filter (fun e => negb (mem_str (fst e) L)) pk)) dflt =
+  last_val (s_refs_remotes ++ b) pk dflt.
+Proof.
+  intros M. induction pk as [|[n h] pk IH]; intros Hn dflt; [reflexivity|].
+  cbn [filter fst]. destruct (Hn (n, h) (or_introl eq_refl)) as [x Hx]. cbn [fst] in Hx.
+  destruct (mem_str n L) eqn:Mn; cbn [negb map last_val fst snd].
+  - destruct (list_eqb (s_refs_remotes ++ b) n) eqn:E.
+    + apply list_eqb_eq in E. subst n. congruence.
+    + apply IH. intros e He. apply Hn. now right.
+  - rewrite (key_eqb _ _ _ Hx). unfold sha_of at 1. cbn [snd].
+    apply IH. intros e He. apply Hn. now right.
+Qed.
+
 (* ProjectRepo.make_branch_refs_map: the head recorded for a branch of the remote is
    - what the loose ref file says (GitRepo.get_ref_commit), when there is one,
    - otherwise the hexsha of the LAST entry of that name that _iter_packed_refs yields,
@@ -350,14 +379,13 @@ Qed.
 Lemma branch_refs_map_spec d remote m pk b :
   branch_refs_map d remote = Ok m ->
   packed_refs d [remote_prefix remote] = Ok pk ->
-  loose_under (remote_prefix remote) (s_refs_remotes ++ b) = true \/ prefixb (remote ++ [47]) b = true ->
   slookup b m =
     if mem_str (s_refs_remotes ++ b)
                (map fst (filter (fun e => loose_under (remote_prefix remote) (fst e)) (d_loose d)))
     then slookup (s_refs_remotes ++ b) (d_loose d)
     else last_val (s_refs_remotes ++ b) pk None.
 Proof.
-  intros Hm Hpk _. unfold branch_refs_map in Hm. fold (remote_prefix remote) in Hm.
+  intros Hm Hpk. unfold branch_refs_map in Hm. fold (remote_prefix remote) in Hm.
   rewrite iter_refs_one in Hm by apply remote_prefix_refs. rewrite Hpk in Hm. cbn zeta in Hm.
   injection Hm as <-.
   set (fs := filter (fun e => loose_under (remote_prefix remote) (fst e)) (d_loose d)).
@@ -391,8 +419,8 @@ Proof.
       * (* the name is among the loose files, so the lookup cannot fail *)
         exfalso. apply filter_In in Hin0 as [Hin0 _]. clear - L Hin0 He0.
         induction (d_loose d) as [|[k v] l IH]; [destruct Hin0|].
-        cbn in L. destruct (list_eqb (s_refs_remotes ++ b) k) eqn:E; [discriminate|].
-        destruct Hin0 as [<-|Hin0]; [|auto]. cbn in He0. subst k. now rewrite list_eqb_refl in E.
+        cbn [slookup] in L. destruct (list_eqb (s_refs_remotes ++ b) k) eqn:E; [discriminate|].
+        destruct Hin0 as [<-|Hin0]; [|auto]. cbn [fst] in He0. subst k. now rewrite list_eqb_refl in E.
     + intros e He. apply in_map_iff in He as (e1 & <- & He1). cbn [fst].
       apply filter_In in He1 as [He1 Hn]. destruct (Hpkn _ He1) as [x Hx]. rewrite (Hkey _ _ Hx).
       destruct (list_eqb (s_refs_remotes ++ b) (fst e1)) eqn:E; [|reflexivity].
@@ -400,25 +428,7 @@ Proof.
   - (* no loose file *)
     rewrite (last_val_absent _ (map _ fs)).
     + (* the filter drops nothing of this name *)
-      clear Hfs. induction pk as [|[n h] pk IH] in Hpkn |- *; [reflexivity|].
-      assert (IH' := IH (fun e He => Hpkn e (or_intror He))).
-      generalize (@None (list Z)) at 1 3. revert IH'.
-      intros _. intros dflt. revert dflt.
-      assert (G : forall (pk : list (list Z * list Z)), (forall e, In e pk -> exists x, fst e = s_refs_remotes ++ x) ->
-                  forall dflt,
-                  last_val b (map (fun x => (skipn (length s_refs_remotes) (fst x), sha_of d (fst x, Some (snd x))))
-                                  (filter (fun e => negb (mem_str (fst e) (map fst fs))) pk)) dflt =
-                  last_val (s_refs_remotes ++ b) pk dflt).
-      { clear - M Hkey. induction pk as [|[n h] pk IH]; intros Hn dflt; [reflexivity|].
-        cbn [filter fst]. destruct (Hn (n, h) (or_introl eq_refl)) as [x Hx]. cbn [fst] in Hx.
-        destruct (mem_str n (map fst fs)) eqn:Mn; cbn [negb map last_val fst snd].
-        - (* dropped: then it is not our name *)
-          destruct (list_eqb (s_refs_remotes ++ b) n) eqn:E.
-          + apply list_eqb_eq in E. subst n. congruence.
-          + apply IH. intros e He. apply Hn. now right.
-        - rewrite (Hkey _ _ Hx). unfold sha_of at 1. cbn [snd].
-          apply IH. intros e He. apply Hn. now right. }
-      intros dflt. apply (G ((n, h) :: pk) Hpkn dflt).
+      apply (last_val_filter d b (map fst fs) M pk Hpkn).
     + intros e He. apply in_map_iff in He as (e1 & <- & He1). cbn [fst].
       destruct (Hfs _ He1) as [x Hx]. rewrite (Hkey _ _ Hx).
       destruct (list_eqb (s_refs_remotes ++ b) (fst e1)) eqn:E; [|reflexivity].
@@ -426,4 +436,90 @@ Proof.
       assert (X : mem_str (s_refs_remotes ++ b) (map fst fs) = true).
       { apply mem_str_In. apply in_map_iff. exists e1. split; [now symmetry|assumption]. }
       congruence.
+Qed.
+
+(* the heads of the branches of a remote, for a packed-refs file without a line the code refuses and in which
+   every '^' line follows a tag (as git writes it): a loose ref file wins, otherwise the LAST plain
+   '<hexsha> refs/remotes/<remote>/<branch>' line; '^' lines never matter *)
+Lemma branch_heads_spec d remote text :
+  d_packed d = Some text ->
+  first_err (map classify (lines text)) = None ->
+  peels_follow_tags (map classify (lines text)) false = true ->
+  exists m, branch_refs_map d remote = Ok m /\
+  forall b, slookup b m =
+    if mem_str (s_refs_remotes ++ b)
+               (map fst (filter (fun e => loose_under (remote_prefix remote) (fst e)) (d_loose d)))
+    then slookup (s_refs_remotes ++ b) (d_loose d)
+    else last_val (s_refs_remotes ++ b) (plain [remote_prefix remote] (map classify (lines text))) None.
+Proof.
+  intros Ht Herr Hp.
+  assert (Hpk : packed_refs d [remote_prefix remote] = Ok (plain [remote_prefix remote] (map classify (lines text)))).
+  { rewrite (packed_refs_spec _ _ _ Ht), Herr. f_equal. apply (entries_plain _ _ false).
+    apply (tags_safe remote _ false false); [discriminate|exact Hp]. }
+  destruct (branch_refs_map d remote) as [m|e] eqn:Hm.
+  - exists m. split; [reflexivity|]. intros b. apply (branch_refs_map_spec _ _ _ _ _ Hm Hpk).
+  - exfalso. unfold branch_refs_map in Hm. fold (remote_prefix remote) in Hm.
+    rewrite iter_refs_one in Hm by apply remote_prefix_refs. rewrite Hpk in Hm. discriminate.
+Qed.
+
+(* without a packed-refs file *)
+Lemma packed_refs_missing d P : d_packed d = None -> packed_refs d P = Ok [].
+Proof. intros H. unfold packed_refs. now rewrite H. Qed.
+
+(* ------------------------------------------------------------------ *)
+(* from the text of a line to its class                                 *)
+
+Lemma lstrip_app_keep a b : a <> [] -> lstrip a = a -> lstrip (a ++ b) = a ++ b.
+Proof.
+  destruct a as [|x a]; [congruence|]. intros _ H. cbn [app lstrip] in *.
+  destruct (is_space x) eqn:E; [|reflexivity].
+  exfalso. assert (L : forall s, (length (lstrip s) <= length s)%nat).
+  { induction s as [|c s IH]; cbn; [lia|]. destruct (is_space c); cbn; lia. }
+  specialize (L a). rewrite H in L. cbn in L. lia.
+Qed.
+
+Lemma break_ws_app sha rest :
+  forallb (fun c => negb (is_space c)) sha = true -> break_ws (sha ++ 32 :: rest) = (sha, 32 :: rest).
+Proof.
+  induction sha as [|c sha IH]; intros H; [reflexivity|].
+  cbn [forallb] in H. apply andb_true_iff in H as [Hc H]. cbn [app break_ws].
+  apply negb_true_iff in Hc. rewrite Hc, (IH H). reflexivity.
+Qed.
+
+(* '<hexsha> <name>': no white space inside the first field, none around the name (inner white space stays in it) *)
+Lemma classify_ref_line c0 sha' name :
+  c0 <> 35 -> c0 <> 94 ->
+  forallb (fun c => negb (is_space c)) (c0 :: sha') = true ->
+  name <> [] -> lstrip name = name -> lstrip (rev name) = rev name ->
+  classify ((c0 :: sha') ++ 32 :: name) = PRef (c0 :: sha') name.
+Proof.
+  intros H35 H94 Hs Hne Hl Hr.
+  assert (Hc0 : is_space c0 = false).
+  { cbn [forallb] in Hs. apply andb_true_iff in Hs as [Hs _]. now apply negb_true_iff in Hs. }
+  assert (St : strip ((c0 :: sha') ++ 32 :: name) = (c0 :: sha') ++ 32 :: name).
+  { unfold strip. cbn [app lstrip]. rewrite Hc0.
+    change (c0 :: sha' ++ 32 :: name) with ((c0 :: sha') ++ 32 :: name).
+    rewrite rev_app_distr. cbn [rev]. rewrite <- !app_assoc.
+    rewrite lstrip_app_keep; [|destruct name; [congruence|cbn; intros E; now apply app_eq_nil in E as [_ E]]|exact Hr].
+    rewrite rev_app_distr. cbn [rev]. rewrite !rev_app_distr, !rev_involutive. cbn [rev app].
+    rewrite <- !app_assoc. reflexivity. }
+  unfold classify. rewrite St. cbn [app].
+  destruct (c0 =? 35) eqn:E1; [apply Z.eqb_eq in E1; contradiction|].
+  destruct (c0 =? 94) eqn:E2; [apply Z.eqb_eq in E2; contradiction|].
+  unfold split1. change (c0 :: sha' ++ 32 :: name) with ((c0 :: sha') ++ 32 :: name).
+  rewrite (break_ws_app _ _ Hs). cbn [lstrip]. change (is_space 32) with true. cbn iota. rewrite Hl.
+  destruct name; [congruence|reflexivity].
+Qed.
+
+(* '^<hexsha>' *)
+Lemma classify_peel_line sha :
+  lstrip (rev sha) = rev sha -> classify (94 :: sha) = PPeel (Nat.eqb (S (length sha)) peel_line_len) sha.
+Proof.
+  intros Hr.
+  assert (St : strip (94 :: sha) = 94 :: sha).
+  { unfold strip. cbn [lstrip]. change (is_space 94) with false. cbn iota. cbn [rev].
+    destruct sha as [|c sha]; [reflexivity|].
+    rewrite lstrip_app_keep; [|cbn; intros E; now apply app_eq_nil in E as [_ E]|exact Hr].
+    rewrite rev_app_distr, rev_involutive. reflexivity. }
+  unfold classify. rewrite St. reflexivity.
 Qed.
